@@ -32,8 +32,11 @@ R3  buffer-view discipline of the growable container (forward must-dataflow on
     `[self._size] =`, as an argument of the whole-buffer operations, in a
     length-independent way (.dtype, identity tests), or indexed by an index
     that the paths to the use prove to be in [0, _size) (comparisons in either
-    orientation, chained, `in range(_size)`, loop over `range(_size)`; the
-    fact dies when the index or `_size` is written).  It is not returned,
+    orientation, chained, `in range(_size)`, loop over `range(_size)`; a
+    negative index resolved against the stored points -- `i + _size` / `i +=
+    _size` where the paths prove -_size <= i < 0 -- , `i % _size`, a
+    conditional between proven arms, a local bound to a proven index; the
+    facts die when the index or `_size` is written).  It is not returned,
     stored elsewhere, iterated, compared element-wise or passed on raw.
     Growth (value flow): the capacity is raised once; every np.resize takes an
     array out of the field table under a key, resizes it to the *raised*
@@ -41,17 +44,28 @@ R3  buffer-view discipline of the growable container (forward must-dataflow on
     capacity on the path, or just grown) when slot `_size` is written and counts
     the point afterwards.
 R4  position <-> distance pairing: on every step the longitude / latitude /
-    azimuth written to the point are those components of one track point,
+    azimuth written to the point are those components of one track point
+    (when the track's point class is a NamedTuple, position k of a point reads
+    as its k-th field, so unpacking and attribute access are one thing),
     obtained by ground_track.step(a, d) with a the point's ground distance on
     entry and a + d equal (algebraically) to the ground distance the step
     leaves, or by location(x) with x equal to that distance and a path that
     excludes a negative advance; ground_track.step itself refuses a negative
-    step (its returning paths evaluated with the step at -1).  The first point
-    is the start of the track.  The forward-geodesic leg coherence rule of the
-    ground track (C15-R5) is part of this clause.
+    step: every returning path, evaluated with the step at -1, is closed by a
+    test on the way (helpers of the file opened; a result delegated to methods
+    of the class -- directly, through a conditional callee or a literal
+    dispatch table -- followed into every delegate, so a refusal that covers
+    only some of the ways to a returned point is reported with that return).
+    The first point is the start of the track.  The forward-geodesic leg
+    coherence rule of the ground track (C15-R5) is part of this clause.
 R5  first point: the point the climb loop advances is initialised with the
     context's starting_mass / total_fuel_mass, the same fields fly() copies
-    into the returned trajectory's metadata (through whatever helper).
+    into the returned trajectory's metadata (through whatever helper); or it
+    reads those two reported fields off the trajectory it belongs to, and on
+    every returning path of fly() (helpers opened) each trajectory has them
+    stored before any call receives it (the phases flown on it see the value)
+    and not set to another value afterwards, and the trajectory returned is
+    one of these.
 R6  altitude schedule and refusals (scenario evaluation): the paths of the
     context constructor are evaluated on eleven explicit missions (origin /
     destination elevation / ceiling covering every branch of the documented
@@ -119,6 +133,7 @@ WHOLE_BUFFER_OPS = {'np.resize', 'deepcopy', 'copy.deepcopy', 'isinstance', 'num
 #   ('a', local, key)        the local holds self._data[key] for the current key
 #   ('dim', key, '')         the data-dictionary entry of key is not a per-point array
 #   ('i', index, 'ge0')      index >= 0          ('i', index, 'lt')   index < self._size
+#   ('i', index, 'neg')      index < 0           ('i', index, 'gem')  index >= -self._size
 # Facts come from the branch taken at a test (`isinstance`, `type() is`,
 # `is None`, dimension tests on the field's metadata, index comparisons, in any
 # boolean combination and either polarity), from `assert`, from `match` class
@@ -227,6 +242,10 @@ def _index_facts(l, op, r, pol):
             yield ('i', norm(x), 'ge0')
         if (_size_text(b) and rel is ast.Lt) or (size_minus_1(b) and rel is ast.LtE):
             yield ('i', norm(x), 'lt')
+        if c is not None and ((rel is ast.Lt and c <= 0) or (rel is ast.LtE and c <= -1)):
+            yield ('i', norm(x), 'neg')
+        if isinstance(b, ast.UnaryOp) and isinstance(b.op, ast.USub) and _size_text(b.operand) and rel in (ast.GtE, ast.Gt):
+            yield ('i', norm(x), 'gem')
 
 
 class _Buffers:
@@ -402,6 +421,11 @@ class _Buffers:
     def _bind(self, st: frozenset, name: str, v: ast.AST | None) -> frozenset:
         new = set()
         if v is not None:
+            # what the state proves about the value as an index holds for the local it is bound to
+            if self.index_proven(st, v):
+                new |= {('i', name, 'ge0'), ('i', name, 'lt')}
+            elif isinstance(v, ast.Name) and v.id != name:
+                new |= {('i', name, f[2]) for f in st if f[0] == 'i' and f[1] == v.id}
             s = self.subject(v)
             if s == name:
                 return st
@@ -422,7 +446,7 @@ class _Buffers:
             return frozenset(f for f in st if not (
                 f[0] == 'k' and (f[1] == f'self._data[{key}]' or f[1].startswith(f'self._data.get({key}'))))
         if isinstance(t, ast.Attribute) and norm(t) == 'self._size':
-            return frozenset(f for f in st if not (f[0] == 'i' and f[2] == 'lt'))
+            return frozenset(f for f in st if not (f[0] == 'i' and f[2] in ('lt', 'gem')))
         if isinstance(t, ast.Attribute) and norm(t) in ('self._data', 'self._data_dictionary'):
             return frozenset(f for f in st if f[0] == 'i' or (f[0] == 'k' and 'self._data' not in f[1]))
         return st
@@ -432,7 +456,7 @@ class _Buffers:
             if isinstance(c, ast.Call) and isinstance(c.func, ast.Attribute) and c.func.attr in self.size_writers \
                     and (norm(c.func.value) == 'self' or
                          (isinstance(c.func.value, ast.Call) and call_name(c.func.value) == 'super')):
-                st = frozenset(x for x in st if not (x[0] == 'i' and x[2] == 'lt'))
+                st = frozenset(x for x in st if not (x[0] == 'i' and x[2] in ('lt', 'gem')))
         return st
 
     def _transfer(self, node, st: frozenset) -> frozenset:
@@ -473,7 +497,7 @@ class _Buffers:
                 bound = {nm for nm, _ in pairs}
                 news = set()
                 for nm, val in pairs:
-                    news |= {f for f in self._bind(st, nm, val) if f[0] in ('k', 'a') and f[1] == nm
+                    news |= {f for f in self._bind(st, nm, val) if f[0] in ('k', 'a', 'i') and f[1] == nm
                              and not (f[0] == 'a' and bound & set(_IDENT.findall(f[2])))}
                 for nm in bound:
                     st = self._kill_name(st, nm)
@@ -481,7 +505,15 @@ class _Buffers:
                 for e in (t.elts if isinstance(t, (ast.Tuple, ast.List)) else [t]):
                     st = self._store(st, e)
         elif isinstance(s, ast.AugAssign):
-            st = self._bind(st, s.target.id, None) if isinstance(s.target, ast.Name) else self._store(st, s.target)
+            if isinstance(s.target, ast.Name):
+                # x op= v binds x to (x op v), evaluated in the state before
+                was = ast.BinOp(left=ast.Name(id=s.target.id, ctx=ast.Load()), op=s.op, right=s.value)
+                proven = self.index_proven(st, was)
+                st = self._bind(st, s.target.id, None)
+                if proven:
+                    st = frozenset(set(st) | {('i', s.target.id, 'ge0'), ('i', s.target.id, 'lt')})
+            else:
+                st = self._store(st, s.target)
         elif isinstance(s, ast.Delete):
             for t in s.targets:
                 st = self._bind(st, t.id, None) if isinstance(t, ast.Name) else self._store(st, t)
@@ -551,8 +583,22 @@ class _Buffers:
         return out
 
     def index_proven(self, st: frozenset, idx: ast.AST) -> bool:
+        """the state proves 0 <= idx < _size: by the facts about idx itself; for `a if c else b` by each arm under
+        its side of c; for `x + _size` when -_size <= x < 0 is proven (a negative index resolved against the stored
+        points, not against the capacity); for `x % _size` by arithmetic (it raises when the container is empty)"""
         t = norm(idx)
-        return ('i', t, 'ge0') in st and ('i', t, 'lt') in st
+        if ('i', t, 'ge0') in st and ('i', t, 'lt') in st:
+            return True
+        if isinstance(idx, ast.IfExp):
+            return self.index_proven(self._refine(st, idx.test, True), idx.body) \
+                and self.index_proven(self._refine(st, idx.test, False), idx.orelse)
+        if isinstance(idx, ast.BinOp) and isinstance(idx.op, ast.Mod):
+            return _size_text(idx.right)
+        if isinstance(idx, ast.BinOp) and isinstance(idx.op, ast.Add):
+            for a, b in ((idx.left, idx.right), (idx.right, idx.left)):
+                if _size_text(b) and ('i', norm(a), 'gem') in st and ('i', norm(a), 'neg') in st:
+                    return True
+        return False
 
     # -- how one load of a subject is consumed
     def classify(self, st: frozenset, e: ast.AST):
@@ -895,10 +941,53 @@ def _amount_nf(rest):
     return _nf(expr if expr is not None else ast.Constant(0), {})
 
 
+def _track_point_fields(prog) -> list[str] | None:
+    """field names, in positional order, of the points the ground track hands out when they are tuples (the class
+    named by the return annotation of GroundTrack.step is a NamedTuple); None when a point has no positions"""
+    m = prog.module('trajectories/ground_track.py')
+    stepf = m.func('GroundTrack.step')
+    ann = stepf.node.returns
+    if isinstance(ann, ast.Constant) and isinstance(ann.value, str):
+        try:
+            ann = ast.parse(ann.value, mode='eval').body
+        except SyntaxError:
+            return None
+    if ann is None:
+        return None
+    name = norm(ann)
+    cls = m.classes.get(name) or next((c for k, c in m.classes.items() if k.split('.')[-1] == name.split('.')[-1]), None)
+    if cls is None or not any(b.split('.')[-1] == 'NamedTuple' for b in cls.base_exprs):
+        return None
+    return list(cls.annotated_fields())
+
+
+def _positions_as_fields(e, fields):
+    """e with `P[k]` (k a constant position) read as `P.<field k>` wherever P is a point of the ground track: the
+    result of ground_track.step(..) / .location(..) or an item ground_track[i]"""
+    from .c06 import canon, clone
+    if not fields or e is None:
+        return e
+
+    def is_point(p):
+        if isinstance(p, ast.Call) and isinstance(p.func, ast.Attribute) and p.func.attr in ('step', 'location'):
+            return canon(p.func.value).endswith('ground_track')
+        return isinstance(p, ast.Subscript) and canon(p.value).endswith('ground_track')
+
+    class T(ast.NodeTransformer):
+        def visit_Subscript(self, n):
+            self.generic_visit(n)
+            k = n.slice.value if isinstance(n.slice, ast.Constant) else None
+            if isinstance(k, int) and not isinstance(k, bool) and -len(fields) <= k < len(fields) and is_point(n.value):
+                return ast.Attribute(value=n.value, attr=fields[k], ctx=ast.Load())
+            return n
+    return T().visit(clone(e))
+
+
 def rule_flight(ctx):
     from .c06 import canon, ceval, is_sym, uncur, _nf
     prog = ctx.prog
     runs = _phase_runs(ctx)
+    pfields = _track_point_fields(prog)
     n_pairs = n_pos = n_clamp = 0
     for ph, (meth, pre, steps) in runs.items():
         if not steps:
@@ -956,7 +1045,7 @@ def rule_flight(ctx):
                 for t, v, e in stp.stores(attr):
                     n_pos += 1
                     chain = []
-                    x = v
+                    x = v = _positions_as_fields(v, pfields)      # a point that is a tuple: position k is field k
                     while isinstance(x, ast.Attribute):
                         chain.append(x.attr)
                         x = x.value
@@ -1053,11 +1142,20 @@ def rule_flight(ctx):
     def ctx_field(v):
         # the builder forwards attribute access to its per-flight context: self.x and self.ctx.x are one field
         return canon(v).replace('self.ctx.', 'self.') if v is not None else None
+    # the first point takes its masses from the context fields fly() reports, or reads the reported fields of the
+    # trajectory it belongs to (the trajectory parameter of the phase, the one the point is made from)
+    tparam = meth.params[1] if len(meth.params) > 1 else 'traj'
+    own_traj = all(pt_ == f'{tparam}.make_point()' for pt_ in points)
+    from_traj = {}          # reported field -> True when the first point reads it off its own trajectory
     for attr, want in (('aircraft_mass', 'self.starting_mass'), ('fuel_mass', 'self.total_fuel_mass')):
         e = first.get(attr)
-        ok = e is not None and ctx_field(e.value) == want
+        got = ctx_field(e.value) if e is not None else None
+        field_ = want.split('.', 1)[1]
+        from_traj[field_] = own_traj and got == f'{tparam}.{field_}'
+        ok = e is not None and (got == want or from_traj[field_])
         ctx.ob('C02-R5', (e.fi if e is not None else meth), f'pt.{attr} = {canon(e.value)[:50] if e is not None else "?"}', ok,
-               'first point carries the context value fly() reports' if ok else
+               ('first point carries the context value fly() reports' if not from_traj[field_] else
+                f'first point carries the {field_} its own trajectory reports') if ok else
                f'first point {attr} is not initialised from {want}', line=(e.line if e is not None else 0))
     for attr in ('flight_time', 'ground_distance'):
         e = first.get(attr)
@@ -1069,7 +1167,7 @@ def rule_flight(ctx):
         if e is None:
             ctx.ob('C02-R4', meth, f'pt.{attr} of the first point', False, f'the first point\'s {attr} is never set', nontrivial=False)
             continue
-        txt = ctx_field(e.value)
+        txt = ctx_field(_positions_as_fields(e.value, pfields))
         heads = ('self.ground_track[0].', 'self.ground_track.location(0).', 'self.ground_track.location(0.0).',
                  'self.ground_track.step(0, 0).', 'self.ground_track.step(0.0, 0.0).')
         head = next((h for h in heads if txt.startswith(h)), None)
@@ -1081,33 +1179,49 @@ def rule_flight(ctx):
                f'pt.{attr} of the first point receives `.{txt[len(head):]}` of the track start: a different component',
                line=e.line, nontrivial=False)
     # ground_track.step() itself refuses a negative advance (that refusal is what rejects a mission that is too short)
-    from .c06 import Engine as _E, Undecided as _U
+    from .c06 import Undecided as _U
     stepf = prog.func('trajectories/ground_track.py', 'GroundTrack.step')
+    dpar = stepf.params[2] if len(stepf.params) > 2 else 'distance_step'
     try:
-        souts = _E(prog, inline=lambda fi: False).run(stepf, self_cls=stepf.cls)
+        open_paths = _paths_answering(prog, stepf, None, {dpar: -1.0, stepf.params[1]: 5.0})
     except _U as ex:
         ctx.undecided('C02-R4', stepf, 'step', str(ex))
-    dpar = stepf.params[2] if len(stepf.params) > 2 else 'distance_step'
-    open_paths = []
-    for kind, v, st in souts:
-        if kind != 'return':
-            continue
-        closed = False
-        for cond, pol in st.pc:
+    if open_paths:
+        # say it on step's own text when the open path shows there (helpers not opened), else on the opened text
+        try:
+            own = _paths_answering(prog, stepf, None, {dpar: -1.0, stepf.params[1]: 5.0}, depth=0, opened=False)
+        except _U:
+            own = []
+        v0, st0 = (own or open_paths)[0]
+        tests = []
+        for c, p in st0.pc:
             try:
-                if bool(ceval(cond, {dpar: -1.0, stepf.params[1]: 5.0})) != pol:
-                    closed = True
-                    break
+                ceval(c, {dpar: -1.0, stepf.params[1]: 5.0})
             except Exception:
                 continue
-        if not closed:
-            open_paths.append(st)
+            if dpar in {n.id for n in ast.walk(c) if isinstance(n, ast.Name)}:
+                tests.append(canon(uncur(c)))
+        how = (f'`return {canon(uncur(v0))[:60]}` is reached with {dpar} < 0 '
+               + (f'(the sign tests on the way, `{"`, `".join(t[:50] for t in tests[:2])}`, let it through)' if tests else
+                  f'(no test of the sign of {dpar} lies on that path: the refusal of negative distances does not cover it)'))
     ctx.ob('C02-R4', stepf, 'ground_track.step refuses a negative distance step', not open_paths,
            'every returning path excludes distance_step < 0' if not open_paths else
-           'a negative step is answered with a point: a mission too short for its climb and descent is flown backwards instead of being refused')
-    from .c15 import rule_track  # leg coherence of the forward geodesic
+           'a negative step is answered with a point: ' + how + '; a mission too short for its climb and descent is flown '
+           'backwards instead of being refused')
+    # leg coherence of the forward geodesic: the two parts of C15's ground-track rules that judge C15-R5 (the sample
+    # queries and the leg components), under rule_track's own policy for a part that cannot decide -- an established
+    # incoherence stands; the parts about C15's other clauses (slots, mission, private helpers) are not C02's
+    from .c15 import rule_legs, rule_queries
     sub = type(ctx)(ctx.prop, ctx.prog, ctx.tier)
-    rule_track(sub)
+    covered: set = set()
+    first_error = None
+    for part in (lambda c: rule_queries(c, covered), lambda c: rule_legs(c, covered)):
+        try:
+            part(sub)
+        except AnalysisError as ex:
+            first_error = first_error or ex
+    if first_error is not None and not any(not o.ok and o.rule == 'C15-R5' for o in sub.obligations):
+        raise first_error
     for o in sub.obligations:
         if o.rule == 'C15-R5':
             o.rule = 'C02-R4'
@@ -1129,6 +1243,19 @@ def rule_flight(ctx):
         got = {e.target.attr: e for e in st.events if e.kind == 'store' and isinstance(e.target, ast.Attribute)
                and e.target.attr in want and canon(e.target.value) == canon(v)}
         for attr, w in want.items():
+            if from_traj.get(attr):
+                # the first point reads the reported field of the trajectory it belongs to: what it carries is what
+                # is reported when the field is set on the trajectory before its phases are flown and not changed after
+                key = (attr, 'own', _own_metadata_discipline(st, v, attr))
+                if key in seen:
+                    continue
+                seen[key] = True
+                ok, why, line = key[2]
+                if ok is None:
+                    ctx.undecided('C02-R5', fly, f'traj.{attr}', why)
+                ctx.ob('C02-R5', fly, f'traj.{attr} is set before the phases are flown and kept', ok, why,
+                       line=(line or fly.node.lineno))
+                continue
             e = got.get(attr)
             key = (attr, canon(e.value) if e is not None else None)
             if key in seen:
@@ -1212,6 +1339,125 @@ def rule_flight(ctx):
         ok = marks == {f'FlightPhase.{ph}'}
         ctx.ob('C02-R8', meth, f'{ph.lower()} points are marked {sorted(marks)}', ok, 'own phase' if ok else 'points are counted under another phase',
                nontrivial=False)
+
+
+def _own_metadata_discipline(st, v, attr):
+    """(ok, why, line) for one returning path of fly() (helpers opened) when the first point reads `attr` off the
+    trajectory it belongs to.  Every trajectory object X that has X.attr stored on the path: the stores come before
+    every call that receives X (the phases flown on it see the value) and no store of another value follows such a
+    call.  The trajectory returned is one of these (the same object; or, handed on through a loop-carried local, one
+    of the trajectories the path built -- all of which then satisfy the condition).  ok None = cannot tell."""
+    from .c06 import canon, is_sym
+    ev = list(st.events)
+    recv: dict = {}
+    born: dict = {}         # text of a constructed object -> positions of its constructor events (same text, new object)
+    for i, e in enumerate(ev):
+        if e.kind == 'ctor' and e.value is not None:
+            born.setdefault(canon(e.value), []).append(i)
+    for i, e in enumerate(ev):
+        if e.kind == 'store' and isinstance(e.target, ast.Attribute) and e.target.attr == attr:
+            r = canon(e.target.value)
+            if r in ('self', 'self.ctx'):
+                continue
+            gen = sum(1 for b in born.get(r, ()) if b <= i)
+            recv.setdefault((r, gen), []).append((i, e))
+    if not recv:
+        return False, f'{attr} of the trajectory is never set, yet the first point is initialised from it', 0
+    for (r, gen), stores in recv.items():
+        life = [b for b in born.get(r, ())]
+        lo = life[gen - 1] if gen >= 1 else -1
+        hi = life[gen] if gen < len(life) else len(ev)
+        uses = [i for i, e in enumerate(ev) if lo < i < hi and e.kind == 'call'
+                and any(canon(a) == r for a in list(e.args) + list(e.kwargs.values()))]
+        if not uses:
+            continue
+        before = [(i, e) for i, e in stores if i < uses[0]]
+        if not before:
+            i, e = stores[0]
+            return False, (f'{attr} of the trajectory is set only after its phases have been flown: the first point is '
+                           'initialised from a field that has no value yet'), e.line
+        val = canon(before[-1][1].value)
+        late = [(i, e) for i, e in stores if i > uses[0] and canon(e.value) != val]
+        if late:
+            return False, (f'{attr} of the trajectory is set to `{val[:40]}` before the phases are flown (the first point '
+                           f'carries that) and to `{canon(late[0][1].value)[:40]}` afterwards (that is reported)'), late[0][1].line
+    rv = canon(v)
+    if any(r == rv for r, _ in recv):
+        return True, 'set on the trajectory before its phases are flown, not changed afterwards; that trajectory is returned', 0
+    if any(is_sym(n, '_loopvar') for n in ast.walk(v)):
+        return True, ('set on every trajectory the path builds before its phases are flown, not changed afterwards; the '
+                      'trajectory returned is handed on through a loop-carried local'), 0
+    return None, f'cannot relate the returned `{rv[:50]}` to the trajectories whose {attr} is set on the path', 0
+
+
+def _delegates(func) -> list[str] | None:
+    """names of the methods of `self` that the callee expression `func` can denote: self.m, a conditional between
+    such, an entry (or the default) of a literal table of such"""
+    if isinstance(func, ast.Attribute) and isinstance(func.value, ast.Name) and func.value.id in ('self', 'cls'):
+        return [func.attr]
+    if isinstance(func, ast.IfExp):
+        a, b = _delegates(func.body), _delegates(func.orelse)
+        return a + b if a is not None and b is not None else None
+    table, extra = None, []
+    if isinstance(func, ast.Subscript) and isinstance(func.value, ast.Dict):
+        table = func.value
+    elif isinstance(func, ast.Subscript) and isinstance(func.value, (ast.Tuple, ast.List)):
+        table = func.value
+    elif isinstance(func, ast.Call) and isinstance(func.func, ast.Attribute) and func.func.attr == 'get' \
+            and isinstance(func.func.value, ast.Dict) and len(func.args) == 2 and not func.keywords:
+        table, extra = func.func.value, [func.args[1]]
+    if table is None:
+        return None
+    out = []
+    for v in list(table.values if isinstance(table, ast.Dict) else table.elts) + extra:
+        d = _delegates(v)
+        if d is None:
+            return None
+        out += d
+    return out or None
+
+
+def _paths_answering(prog, fi, args, probe, depth=3, opened=True):
+    """[(value, St)] of the returning paths of `fi` that the inputs `probe` ({parameter of the outermost function:
+    number}) may take.  Path conditions are evaluated on the probe (a condition that cannot be evaluated decides
+    nothing); helpers of the same file are opened by the engine; a result that is delegated to a method of the same
+    class -- `return self.m(..)`, also through a conditional callee or a literal dispatch table -- is followed into
+    every method the callee can denote, with its parameters bound to the arguments, so that a refusal placed in the
+    delegate counts for the path and one placed in only one of the delegates does not."""
+    from .c06 import Engine, Undecided, ceval
+    try:
+        if not opened:
+            raise Undecided('as written')
+        outs = Engine(prog, inline=lambda f: f.file == fi.file).run(fi, self_cls=fi.cls, args=args)
+    except Undecided:
+        outs = Engine(prog, inline=lambda f: False).run(fi, self_cls=fi.cls, args=args)
+    res = []
+    for kind, v, st in outs:
+        if kind != 'return':
+            continue
+        closed = False
+        for cond, pol in st.pc:
+            try:
+                if bool(ceval(cond, dict(probe))) != pol:
+                    closed = True
+                    break
+            except Exception:
+                continue
+        if closed:
+            continue
+        names = _delegates(v.func) if isinstance(v, ast.Call) and depth > 0 else None
+        cands = [fi.cls.find_method(n) for n in names] if names and fi.cls is not None else []
+        if not cands or any(c is None or c.node is fi.node for c in cands) \
+                or any(isinstance(a, ast.Starred) for a in v.args) or any(k.arg is None for k in v.keywords):
+            res.append((v, st))
+            continue
+        for c in cands:
+            decs = [d.split('.')[-1].split('(')[0] for d in c.decorators()]
+            params = list(c.params) if 'staticmethod' in decs else list(c.params[1:])
+            bound = dict(zip(params, v.args))
+            bound.update({k.arg: k.value for k in v.keywords if k.arg in params})
+            res += _paths_answering(prog, c, bound, probe, depth - 1, opened)
+    return res
 
 
 def _non_negative(d, e, ceval, canon, is_sym):
@@ -1570,5 +1816,6 @@ def run(ctx):
             o.rule = 'C02-R10'
             ctx.obligations.append(o)
         ctx.controls += sub.controls
-    ctx.assumptions += ['monotonicity of time/distance and altitude values depend on table values (not decided)',
+    ctx.assumptions += ['a trajectory that fly() returns through a loop-carried local is one of the trajectories built on that path',
+                        'monotonicity of time/distance and altitude values depend on table values (not decided)',
                         'np.resize keeps the leading elements of the resized buffer']
